@@ -9,6 +9,7 @@ use ark_poly_commit::{
     BatchLCProof, Evaluations, LCTerm, LabeledCommitment, LabeledPolynomial, LinearCombination,
     PolynomialCommitment, QuerySet,
 };
+use ark_serialize::{CanonicalDeserialize, CanonicalSerialize, Compress, Validate};
 use ark_std::rand::{RngCore, SeedableRng};
 use rand_chacha::ChaCha20Rng;
 use std::any::Any;
@@ -1028,6 +1029,55 @@ impl<'b, A: Adapter> Sess<'b, A> {
     }
 }
 
+/// One canonical-serialization round trip with all the laws of C12; returns the deserialized value.
+pub fn roundtrip<T: CanonicalSerialize + CanonicalDeserialize>(
+    x: &T,
+    mode: i64,
+    name: &str,
+    errs: &mut Vec<String>,
+    checks: &mut usize,
+) -> Option<T> {
+    let compress = if mode >= 2 { Compress::Yes } else { Compress::No };
+    let validate = if mode % 2 == 1 { Validate::Yes } else { Validate::No };
+    let mut bytes = vec![];
+    if x.serialize_with_mode(&mut bytes, compress).is_err() {
+        errs.push(format!("{}: serialization failed (mode {})", name, mode));
+        return None;
+    }
+    *checks += 1;
+    if x.serialized_size(compress) != bytes.len() {
+        errs.push(format!("{}: serialized_size {} but {} bytes written (mode {})", name, x.serialized_size(compress), bytes.len(), mode));
+    }
+    let y = match guarded(|| T::deserialize_with_mode(&bytes[..], compress, validate)) {
+        Out::Ok(y) => y,
+        o => {
+            errs.push(format!("{}: deserialization of own output failed (mode {}): {}", name, mode, o.detail()));
+            return None;
+        }
+    };
+    let mut again = vec![];
+    let _ = y.serialize_with_mode(&mut again, compress);
+    if again != bytes {
+        errs.push(format!("{}: re-serialization differs (mode {})", name, mode));
+    }
+    // truncated input is an error: every proper prefix (sampled when long)
+    let n = bytes.len();
+    let step = if n <= 4096 { 1 } else { n / 256 };
+    let mut cut = 0;
+    while cut < n {
+        *checks += 1;
+        match guarded(|| T::deserialize_with_mode(&bytes[..cut], compress, validate)) {
+            Out::Ok(_) => {
+                errs.push(format!("{}: {} of {} bytes deserialize successfully (mode {})", name, cut, n, mode));
+                break;
+            }
+            _ => {}
+        }
+        cut += step;
+    }
+    Some(y)
+}
+
 /// Execute a behaviour and report the observations.
 pub fn run_beh<A: Adapter>(beh: &Beh) -> Obs {
     let mut obs = Obs::default();
@@ -1042,6 +1092,15 @@ pub fn run_beh<A: Adapter>(beh: &Beh) -> Obs {
             return obs;
         }
     };
+    let ser_of = |art: &str| -> Vec<i64> { beh.ser.iter().filter(|(a, _)| a == art).map(|(_, m)| *m).collect() };
+    let mut ser_errors: Vec<String> = vec![];
+    let mut ser_checks = 0usize;
+    let mut pp = pp;
+    for m in ser_of("pp") {
+        if let Some(y) = roundtrip(&pp, m, "universal parameters", &mut ser_errors, &mut ser_checks) {
+            pp = y;
+        }
+    }
     // trim
     let bounds: Option<Vec<usize>> = if beh.nobounds {
         None
@@ -1057,13 +1116,23 @@ pub fn run_beh<A: Adapter>(beh: &Beh) -> Obs {
         )
     });
     obs.trim = tr.class().into();
-    let (ck, vk) = match tr {
+    let (mut ck, mut vk) = match tr {
         Out::Ok(k) => k,
         o => {
             obs.detail = o.detail();
             return obs;
         }
     };
+    for m in ser_of("ck") {
+        if let Some(y) = roundtrip(&ck, m, "committer key", &mut ser_errors, &mut ser_checks) {
+            ck = y;
+        }
+    }
+    for m in ser_of("vk") {
+        if let Some(y) = roundtrip(&vk, m, "verifier key", &mut ser_errors, &mut ser_checks) {
+            vk = y;
+        }
+    }
     // commit
     let lps: Vec<LabeledPolynomial<A::F, A::P>> = beh
         .polys
@@ -1083,13 +1152,27 @@ pub fn run_beh<A: Adapter>(beh: &Beh) -> Obs {
         )
     });
     obs.commit = cm.class().into();
-    let (comms, states) = match cm {
+    let (mut comms, mut states) = match cm {
         Out::Ok(c) => c,
         o => {
             obs.detail = o.detail();
             return obs;
         }
     };
+    for m in ser_of("comm") {
+        for c in comms.iter_mut() {
+            if let Some(y) = roundtrip(c.commitment(), m, "commitment", &mut ser_errors, &mut ser_checks) {
+                *c = LabeledCommitment::new(c.label().clone(), y, c.degree_bound());
+            }
+        }
+    }
+    for m in ser_of("state") {
+        for st in states.iter_mut() {
+            if let Some(y) = roundtrip(&*st, m, "commitment state", &mut ser_errors, &mut ser_checks) {
+                *st = y;
+            }
+        }
+    }
     if comms.len() != lps.len() || states.len() != lps.len() {
         obs.commit = "err".into();
         obs.detail = "harness: commit returned a different number of commitments".into();
@@ -1127,8 +1210,28 @@ pub fn run_beh<A: Adapter>(beh: &Beh) -> Obs {
         o.open = pr.class().into();
         o.open_detail = pr.detail();
         match pr {
-            Out::Ok(p) => {
+            Out::Ok(mut p) => {
                 sess.sp_p = sp;
+                for m in ser_of("proof") {
+                    p = match p {
+                        ProofObj::Single(x) => ProofObj::Single(roundtrip(&x, m, "proof", &mut ser_errors, &mut ser_checks).unwrap_or(x)),
+                        ProofObj::Batch(v, e) => {
+                            if op.kind == "lc" {
+                                let bl = BatchLCProof::<A::F, BProof<A>> { proof: v.clone().into(), evals: e.clone() };
+                                match roundtrip(&bl, m, "combination proof", &mut ser_errors, &mut ser_checks) {
+                                    Some(y) => ProofObj::Batch(y.proof.into(), y.evals),
+                                    None => ProofObj::Batch(v, e),
+                                }
+                            } else {
+                                let bp: BProof<A> = v.clone().into();
+                                match roundtrip(&bp, m, "batch proof", &mut ser_errors, &mut ser_checks) {
+                                    Some(y) => ProofObj::Batch(y.into(), e),
+                                    None => ProofObj::Batch(v, e),
+                                }
+                            }
+                        }
+                    };
+                }
                 stmts.push(Some(sess.statement(op, p)));
             }
             _ => {
@@ -1210,5 +1313,7 @@ pub fn run_beh<A: Adapter>(beh: &Beh) -> Obs {
         obs.ops[i].lockstep = sess.sp_v.state_digest() == sp_after_p[i];
         let _ = op;
     }
+    obs.ser_errors = ser_errors;
+    obs.ser_checks = ser_checks;
     obs
 }
